@@ -31,6 +31,20 @@ class Transport(object):
         pass
 
 
+class UsbTransport(Transport):
+    """nfc.clf.transport.USB as the RC-S380 driver sees it: one bulk read delivers 1..300 octets (bulkRead is
+    called with a 300 octet buffer and an empty read is turned into IOError), any content, or fails."""
+
+    def read(self, timeout=0):
+        if nondet_bool():
+            if nondet_bool():
+                raise IOError(errno.ETIMEDOUT, "timeout")
+            raise IOError(errno.EIO, "input/output error")
+        b = nondet_bytearray(1, 300)
+        self.last = bytes(b)
+        return b
+
+
 from specs.pn53x_frame import pn53x_body
 
 
